@@ -376,9 +376,10 @@ class Builder:
 
     def command(self, step):
         c = self.c
-        k = c.n(4)
+        k = c.n(6)
         if k == 0 or not self.cwl:
             return None
+        k = 3 if k == 5 else min(k, 2)
         iwd = c.of([None, "/abs/dir", ["$(inputs.f)", {"entryname": "x", "entry": "y", "writable": True}], []])
         if k == 3:
             return CWLExpressionCommand(
@@ -387,7 +388,7 @@ class Builder:
             )
         return CWLCommand(
             step=step,
-            processors=None if c.n(4) == 0 else [self.command_token_processor() for _ in range(c.n(4))],
+            processors=None if c.n(5) == 0 else [self.command_token_processor() for _ in range(1 + c.n(3))],
             absolute_initial_workdir_allowed=c.bool(), base_command=c.opt_strlist(),
             environment=None if c.n(3) == 0 else {c.name(): c.str() for _ in range(c.n(3))},
             expression_lib=c.opt_strlist(), failure_codes=c.of([None, [], [1, 2]]), full_js=c.bool(), initial_work_dir=iwd,
@@ -440,8 +441,10 @@ class Builder:
         "t-loopvaluefrom",
     ]
 
+    EXTRA_WEIGHT = ["cwl-execute", "cwl-execute", "execute", "t-token", "t-clone", "cwl-schedule"]  # 36 kinds in total
+
     def make_step(self, sd: dict, idx: int) -> Step | None:
-        kinds = self.CORE_KINDS + (self.CWL_KINDS if self.cwl else [])
+        kinds = self.CORE_KINDS + (self.CWL_KINDS + self.EXTRA_WEIGHT if self.cwl else [])
         kind = kinds[sd["k"] % len(kinds)]
         saved, self.c = self.c, Chooser(sd.get("p"))
         try:
